@@ -136,7 +136,7 @@ def is_content_match(torrent, candidate):
             middle_piece_index = int(len(all_file_piece_indexes) / 2)
             some_file_piece_indexes = (
                 all_file_piece_indexes[:1]
-                + [middle_piece_index]
+                + all_file_piece_indexes[middle_piece_index:middle_piece_index + 1]
                 + all_file_piece_indexes[-1:]
             )
             check_piece_indexes.update(some_file_piece_indexes)
